@@ -68,7 +68,7 @@ def cells(tier):
     out.append(lcell(['c1', 'none', 'c1'], default_suffix=True, prefix='empty', T=T))
     out.append(lcell(['c1'], default_suffix=True, prefix='none', T=T))
     if tier == 'thorough':
-        out.append(lcell(['c2', 'c2'], T=T, klen=3))
+        out.append(lcell(['c2', 'c2'], T=T, klen=2))
         out.append(lcell(['c1', 'c1', 'c1', 'c1'], T=T, klen=2))
     for kind in ('roCreate', 'roStoryMove', 'roDelete', 'roStoryInsert'):
         for source in ('string', 'file', 's3'):
